@@ -430,11 +430,102 @@ type portEntry struct {
 	Port     string   `json:"port"`  // "" = key absent
 	Ports    []string `json:"ports"` // nil = key absent
 	Services []string `json:"services"`
+	// RawPort / RawPorts: the key written with a value that is not a string / not an array of
+	// strings (raw TOML: 80, true, [80, 53]); "" = not used. Such an entry does not parse as
+	// protocol/port, so nothing of it is listened on. Generated only without Port / Ports.
+	RawPort  string `json:"raw_port,omitempty"`
+	RawPorts string `json:"raw_ports,omitempty"`
+}
+
+// svcDef is one [service.<name>] section. Type, Director and Port hold the value of the key as
+// written in TOML ("" = key absent): a quoted string ("\"verif-plain\"", "\"\"") or a value of
+// another type (5, ["d1"]).
+type svcDef struct {
+	Name     string `json:"name"`
+	Type     string `json:"type"`
+	Director string `json:"director"`
+	Port     string `json:"port"` // the deprecated per-service port key
+}
+
+// dirDef is one [director.<name>] section; Type as in svcDef.
+type dirDef struct {
+	Name string `json:"name"`
+	Type string `json:"type"`
 }
 
 type tableCase struct {
-	Defined []string    `json:"defined_services"`
-	Entries []portEntry `json:"entries"`
+	Defined   []string    `json:"defined_services"` // sections of the valid plain form (older replays)
+	Services  []svcDef    `json:"service_sections,omitempty"`
+	Directors []dirDef    `json:"director_sections,omitempty"`
+	Entries   []portEntry `json:"entries"`
+}
+
+const (
+	stubType     = "verif-plain" // the service type the lab registers
+	directorType = "forward"     // a director type that needs nothing from the environment to be constructed
+)
+
+// tomlString: the string a raw TOML value denotes; ok=false when the key is absent or the
+// value is not a string.
+func tomlString(raw string) (string, bool) {
+	if !strings.HasPrefix(raw, "\"") {
+		return "", false
+	}
+	v, err := strconv.Unquote(raw)
+	return v, err == nil
+}
+
+// notAString: the key is present with a value of another type - the section cannot be read.
+func notAString(raw string) bool {
+	_, ok := tomlString(raw)
+	return raw != "" && !ok
+}
+
+// refDefined: which service names count as defined. A section defines a service when it can be
+// set up: its keys have the right types, type names a registered service type, it does not use
+// the deprecated per-service port key, and - when it names a director - that director is
+// configured, i.e. has a section of its own that names an available director type. Everything
+// else is reported at start-up and the name stays undefined, like a name without a section.
+// The second result gives the reason for each section that defines nothing.
+func refDefined(c tableCase) (map[string]bool, map[string]string) {
+	directors := map[string]bool{}
+	for _, d := range c.Directors {
+		if t, ok := tomlString(d.Type); ok && t == directorType {
+			directors[d.Name] = true
+		}
+	}
+	defined, why := map[string]bool{}, map[string]string{}
+	for _, s := range c.Defined {
+		defined[s] = true
+	}
+	for _, s := range c.Services {
+		typ, _ := tomlString(s.Type)
+		dir, _ := tomlString(s.Director)
+		port, _ := tomlString(s.Port)
+		switch {
+		case notAString(s.Type) || notAString(s.Director) || notAString(s.Port):
+			why[s.Name] = "section has a key of the wrong type"
+		case port != "":
+			why[s.Name] = "section uses the deprecated port key"
+		case dir != "" && !directors[dir]:
+			why[s.Name] = "its director " + strconv.Quote(dir) + " is not configured"
+		case s.Type == "":
+			why[s.Name] = "section has no type"
+		case typ != stubType:
+			why[s.Name] = "type " + strconv.Quote(typ) + " is not a service type"
+		default:
+			defined[s.Name] = true
+		}
+	}
+	return defined, why
+}
+
+func (c tableCase) serviceNames() []string {
+	out := append([]string{}, c.Defined...)
+	for _, s := range c.Services {
+		out = append(out, s.Name)
+	}
+	return out
 }
 
 var portStrings = []string{"tcp/80", "tcp/80", "udp/80", "tcp/81", "udp/53", "tcp/127.0.0.1:80", "tcp/127.0.0.2:80", "tcp/[::1]:80", "udp/127.0.0.1:53", "tcp/0", "tcp/65535", "udp/65535", "tcp/:81",
@@ -454,8 +545,30 @@ func (c tableCase) toml(id string) string {
 	for _, s := range c.Defined {
 		fmt.Fprintf(&b, "[service.%s]\ntype=\"verif-plain\"\nid=%q\n\n", s, id+"-"+s)
 	}
+	for _, d := range c.Directors {
+		fmt.Fprintf(&b, "[director.%s]\nhost=\"127.0.0.1:9\"\n", d.Name)
+		if d.Type != "" {
+			fmt.Fprintf(&b, "type=%s\n", d.Type)
+		}
+		b.WriteString("\n")
+	}
+	for _, s := range c.Services {
+		fmt.Fprintf(&b, "[service.%s]\nid=%q\n", s.Name, id+"-"+s.Name)
+		for _, kv := range [][2]string{{"type", s.Type}, {"director", s.Director}, {"port", s.Port}} {
+			if kv[1] != "" {
+				fmt.Fprintf(&b, "%s=%s\n", kv[0], kv[1])
+			}
+		}
+		b.WriteString("\n")
+	}
 	for _, e := range c.Entries {
 		b.WriteString("[[port]]\n")
+		if e.RawPort != "" {
+			fmt.Fprintf(&b, "port=%s\n", e.RawPort)
+		}
+		if e.RawPorts != "" {
+			fmt.Fprintf(&b, "ports=%s\n", e.RawPorts)
+		}
 		if e.Port != "" {
 			fmt.Fprintf(&b, "port=%q\n", e.Port)
 		}
@@ -502,12 +615,12 @@ func observe(c tableCase) (map[string]refAddr, error) {
 
 // model builds the expected AddAddress sequence.
 func model(c tableCase, resolved map[string]refAddr) []listened {
-	defined := map[string]bool{}
-	for _, s := range c.Defined {
-		defined[s] = true
-	}
+	defined, _ := refDefined(c)
 	var out []listened
 	for _, e := range c.Entries {
+		if e.RawPort != "" || e.RawPorts != "" {
+			continue // not a protocol/port string at all
+		}
 		var strs []string
 		strs = append(strs, e.Ports...)
 		if e.Port != "" {
@@ -567,11 +680,25 @@ func checkTable(c tableCase) error {
 	}
 	defer srv.Stop()
 	ids := []string{id}
-	for _, s := range c.Defined {
+	for _, s := range c.serviceNames() {
 		ids = append(ids, id+"-"+s)
 	}
 	defer lab.Forget(ids...)
 	want := model(c, resolved)
+	defined, why := refDefined(c)
+	undefinedNote := func(names []string) string {
+		note := ""
+		for _, n := range names {
+			if w, ok := why[n]; ok && !strings.Contains(note, strconv.Quote(n)) {
+				note += fmt.Sprintf("; %q is not a defined service: %s", n, w)
+			}
+		}
+		return note
+	}
+	var named []string
+	for _, e := range c.Entries {
+		named = append(named, e.Services...)
+	}
 	var got []refAddr
 	for _, a := range srv.L.Addresses() {
 		d, ok := describe(a)
@@ -585,7 +712,7 @@ func checkTable(c tableCase) error {
 		wantA = append(wantA, l.Addr)
 	}
 	if fmt.Sprint(got) != fmt.Sprint(wantA) {
-		return fmt.Errorf("listener asked to listen on %v, reference model says %v", got, wantA)
+		return fmt.Errorf("listener asked to listen on %v, reference model says %v%s", got, wantA, undefinedNote(named))
 	}
 	// probes: every listened entry, plus addresses that must reach nobody
 	type probe struct {
@@ -637,9 +764,12 @@ func checkTable(c tableCase) error {
 	deadline := time.Now().Add(5 * time.Second)
 	for {
 		seen := map[string]string{}
-		for _, s := range c.Defined {
+		for _, s := range c.serviceNames() {
 			st := lab.GetStub(id + "-" + s)
 			if st == nil {
+				if !defined[s] {
+					continue // a section that defines nothing: no service was constructed (if one is, it must still see no connection)
+				}
 				return fmt.Errorf("infra: stub %s missing", s)
 			}
 			for _, inv := range st.Invocations() {
@@ -671,7 +801,7 @@ func checkTable(c tableCase) error {
 				}
 			}
 			if !found {
-				return fmt.Errorf("connection to %v reached service %s, entry lists %v", p.addr, svc, p.allowed)
+				return fmt.Errorf("connection to %v reached service %s, the entry's defined services are %v%s", p.addr, svc, p.allowed, undefinedNote([]string{svc}))
 			}
 		}
 		if missing == "" {
@@ -697,12 +827,59 @@ func genPortString(t *rapid.T) string {
 	return rapid.SampledFrom(portStrings).Draw(t, "portstr")
 }
 
+// The values a section key is generated with (raw TOML, "" = key absent). Each list holds the
+// valid form several times and one representative of every way the start-up code tells the
+// section apart: unknown name, empty string, key absent, value of the wrong type.
+var (
+	svcTypes     = []string{q1(stubType), q1(stubType), q1(stubType), q1(stubType), q1(stubType), q1(stubType), q1(stubType), q1("nosuchtype"), q1(directorType), q1(""), "", "5"}
+	svcDirectors = []string{"", "", "", "", "", q1(""), q1("d1"), q1("d1"), q1("d2"), q1("d2"), q1("d3"), q1("nodir"), q1(stubType), "7", "[\"d1\"]"}
+	svcPorts     = []string{"", "", "", "", "", "", "", "", "", q1(""), q1("tcp/80"), q1("udp/53"), "80"}
+	dirTypes     = []string{q1(directorType), q1(directorType), q1(directorType), q1(directorType), q1("nosuchdirector"), q1(stubType), q1(""), "", "5"}
+	rawPortVals  = []string{"80", "53", "0", "65535", "true", "80.5", "[80]"}
+	rawPortsVals = []string{"[80]", "[80, 53]", "80", "[true]", "[[80]]"}
+)
+
+func q1(s string) string { return strconv.Quote(s) }
+
+// genSections: service sections s1..s3 (each present or not) whose type, director and port
+// keys are drawn independently, and director sections d1..d3 (each present or not) with a
+// drawn type: the same director name is configured in one case, present but unusable in the
+// next and absent in a third, and the reference decides which services that leaves defined.
+func genSections(t *rapid.T, c *tableCase) {
+	for _, d := range []string{"d1", "d2", "d3"} {
+		if rapid.IntRange(0, 2).Draw(t, "dir-"+d) > 0 {
+			c.Directors = append(c.Directors, dirDef{d, rapid.SampledFrom(dirTypes).Draw(t, "dirtype")})
+		}
+	}
+	for _, s := range rapid.SliceOfNDistinct(rapid.SampledFrom([]string{"s1", "s2", "s3"}), 0, 3, rapid.ID[string]).Draw(t, "sections") {
+		def := svcDef{Name: s, Type: q1(stubType)}
+		if rapid.IntRange(0, 2).Draw(t, "plain") > 0 {
+			def.Type = rapid.SampledFrom(svcTypes).Draw(t, "svctype")
+			def.Director = rapid.SampledFrom(svcDirectors).Draw(t, "svcdirector")
+			def.Port = rapid.SampledFrom(svcPorts).Draw(t, "svcport")
+		}
+		c.Services = append(c.Services, def)
+	}
+}
+
 func genTable(t *rapid.T) tableCase {
-	c := tableCase{Defined: rapid.SliceOfNDistinct(rapid.SampledFrom([]string{"s1", "s2", "s3"}), 0, 3, rapid.ID[string]).Draw(t, "defined")}
+	var c tableCase
+	genSections(t, &c)
 	n := rapid.IntRange(1, 4).Draw(t, "entries")
 	names := []string{"s1", "s2", "s3", "nosuch", "s1"}
 	for i := 0; i < n; i++ {
 		var e portEntry
+		switch rapid.IntRange(0, 19).Draw(t, "rawform") {
+		case 0:
+			e.RawPort = rapid.SampledFrom(rawPortVals).Draw(t, "rawport")
+		case 1:
+			e.RawPorts = rapid.SampledFrom(rawPortsVals).Draw(t, "rawports")
+		}
+		if e.RawPort != "" || e.RawPorts != "" {
+			e.Services = rapid.SliceOfN(rapid.SampledFrom(names), 1, 3).Draw(t, "services")
+			c.Entries = append(c.Entries, e)
+			continue
+		}
 		switch rapid.IntRange(0, 3).Draw(t, "form") {
 		case 0:
 			e.Port = genPortString(t)
@@ -727,10 +904,7 @@ func genTable(t *rapid.T) tableCase {
 
 func nontrivial(c tableCase) bool {
 	// >=2 entries that collide, or an entry mixing valid and unknown services
-	defined := map[string]bool{}
-	for _, s := range c.Defined {
-		defined[s] = true
-	}
+	defined, _ := refDefined(c)
 	var seen []refAddr
 	for _, e := range c.Entries {
 		v, u := false, false
@@ -762,6 +936,41 @@ func nontrivial(c tableCase) bool {
 	return false
 }
 
+// sectionClass: what the entries' service names meet in the service sections - for the labels.
+func sectionClass(c tableCase) string {
+	defined, why := refDefined(c)
+	alone, mixed, dir := false, false, false
+	for _, e := range c.Entries {
+		v, u := false, false
+		for _, n := range e.Services {
+			if defined[n] {
+				v = true
+				for _, s := range c.Services {
+					if s.Name == n && s.Director != "" && s.Director != q1("") {
+						dir = true
+					}
+				}
+			} else if _, ok := why[n]; ok {
+				u = true
+			}
+		}
+		if u && v {
+			mixed = true
+		} else if u {
+			alone = true
+		}
+	}
+	switch {
+	case mixed:
+		return "unusable-section-named-with-defined"
+	case alone:
+		return "unusable-section-named-alone"
+	case dir:
+		return "service-with-director-named"
+	}
+	return "sections-usable-or-unnamed"
+}
+
 func TestPortTable(t *testing.T) {
 	r := vlib.Open(prop)
 	var tc tableCase
@@ -771,14 +980,14 @@ func TestPortTable(t *testing.T) {
 		}
 		return
 	}
-	r.Rule("configurations of 1..4 port entries using port and/or ports with well-formed and malformed strings, service lists naming defined, undefined and duplicate stub services; real Run() with a recording listener; oracle = reference table builder (set and order of AddAddress calls) + probe connections (tcp and udp) to listened and unlistened addresses; one port string in five has a generated host part (invalid neighbours of IP literals, zones, host names - see TestToAddrHosts) on the ports the other entries use, so that a mis-parsed entry competes for the first-wins slot; non-trivial = colliding entries, an entry mixing valid and unknown services, or an entry with services whose host part is not an IP literal")
+	r.Rule("configurations of 1..4 port entries using port and/or ports with well-formed and malformed strings (one entry in ten writes the key with a value that is not a string / list of strings), service lists naming defined, undefined and duplicate stub services; service sections s1..s3 present or absent with independently drawn type (stub type, unknown, empty, absent, not a string), director (absent, empty, d1..d3, a name without section, not a string) and deprecated port key; director sections d1..d3 present or absent with drawn type (available, unknown, empty, absent, not a string) - reference: a section defines a service iff its keys are strings, the type is a service type, no per-service port, and a named director has a section with an available type; real Run() with a recording listener; oracle = reference table builder (set and order of AddAddress calls) + probe connections (tcp and udp) to listened and unlistened addresses, looking at the stubs of every section incl. the ones that define nothing; one port string in five has a generated host part (invalid neighbours of IP literals, zones, host names - see TestToAddrHosts) on the ports the other entries use, so that a mis-parsed entry competes for the first-wins slot; non-trivial = colliding entries, an entry mixing defined and undefined services, or an entry with services whose host part is not an IP literal")
 	r.Rapid(t, "TestPortTable", r.Pick(6000, 60000), func(rt *rapid.T) {
 		c := genTable(rt)
 		fp := ""
 		if nontrivial(c) {
 			fp = vlib.JSON(c)
 		}
-		r.Case(fmt.Sprintf("table/entries=%d", len(c.Entries)), fp, func() interface{} { return c })
+		r.Case(fmt.Sprintf("table/entries=%d/%s", len(c.Entries), sectionClass(c)), fp, func() interface{} { return c })
 		if err := checkTable(c); err != nil {
 			if strings.HasPrefix(err.Error(), "infra:") {
 				rt.Fatalf("%v", err)
